@@ -35,7 +35,7 @@ setup, teardown = C.setup, C.teardown
 def cases(draw):
     scn = draw(gen.scenarios(min_jobs=2, max_jobs=10, allow_cycles=True))
     faults = []
-    kinds = draw(st.lists(st.sampled_from(["series", "series", "garbled", "once", "kill", "kill", "kill"]), min_size=1, max_size=3))
+    kinds = draw(st.lists(st.sampled_from(["series", "series", "garbled", "once", "kill", "kill", "kill", "unreadable"]), min_size=1, max_size=3))
     used = set()
     for k in kinds:
         if k in ("series", "garbled", "once"):
@@ -44,6 +44,14 @@ def cases(draw):
                 continue
             used.add(("s", n))
             faults.append({"kind": {"series": "sbatch_fail_series", "garbled": "sbatch_garbled", "once": "sbatch_fail_once"}[k], "nth": n})
+        elif k == "unreadable":
+            # a node's runner dies by itself: an I/O error while it records one job's completion (the job left a dangling
+            # symbolic link in its output directory, which JADE's size scan trips over)
+            jn = draw(st.sampled_from([j["name"] for j in scn["jobs"]]))
+            if ("u", jn) in used:
+                continue
+            used.add(("u", jn))
+            faults.append({"kind": "unreadable_output", "job": jn})
         else:
             b = draw(st.integers(0, 3))
             if ("k", b) in used:
@@ -109,6 +117,14 @@ def run_case(case):
             lost.update(gone)
             if gone:
                 lost_batches.append(gone)
+        for r in w.events("end_batch"):
+            # a runner that died by itself (exception): the jobs of its batch it had not recorded are lost with it
+            if r.get("exc") and r.get("rows_on_disk") is not None:
+                gone = set(w.slurm[r["id"]]["jobs"]) - set(r["rows_on_disk"])
+                lost.update(gone)
+                if gone:
+                    lost_batches.append(gone)
+                    res["classes"].append("runner_died_by_itself")
         excluded = sum(1 for f in faults if f.get("excluded"))
         hit_kill = sum(1 for f in faults if f["kind"] == "kill" and f.get("done"))
         res["counters"].update({"kills": hit_kill, "kill_points_excluded_node_was_submitter": excluded,
